@@ -42,6 +42,14 @@ CLAIMED.update({
    text="Static half: every schema definition is compared with its registered Go type by reflection in a binary built from the working tree (ids three ways, field kinds, flag bits, flags position), every registered id is looked up in the schemas, wrappers are found by source scan. (Dynamic half - every generated client method end-to-end against the reference server - is added by the e2e workloads, see DESIGN 6/C13.)",
    note="trusted: ref/tlschema; known findings: five constructors registered that the schema only carries as comments", ref="6/C13"),
 })
+CLAIMED.update({
+ "C01": dict(level="exploration", technique="runtime round-trip monitoring over type-directed values of every registered constructor (reflection over the registry export), both decode entry points, determinism of Marshal",
+   text="Every registered type and wrapper gets reflection-built values (presence patterns incl. zero-valued members of present groups, boundary lengths and numbers, every enum member, every implementer in turn, nesting), is marshalled twice and decoded both ways; equality modulo nil/empty, big-int value and double bits. Types are enumerated completely, values sampled.",
+   note="trusted: the value domain restriction to TL values (true-members set in present groups); registry export H1", ref="6/C01"),
+ "C15": dict(level="exploration", technique="structure-aware mutation of valid encodings of every registered type under recover(), child-process death observation, exact allocation accounting (ReadMemStats confirm) and thread-CPU accounting, RLIMIT_AS tripwire",
+   text="Valid encodings of every type are truncated at every boundary and have each word replaced by 20 hostile classes; three decode entry points; panics, child deaths (stack overflow, out of memory), allocation beyond 1 MiB + 4096*len(input) (exact re-measurement decides; gzip inputs exempt) and more than 5 s CPU per call are violations; a 60 s-CPU no-termination monitor ends a hung child.",
+   note="trusted: runtime.ReadMemStats TotalAlloc as exact allocation measure, getrusage(RUSAGE_THREAD)", ref="6/C15"),
+})
 NOT_YET = {}
 
 def main():
